@@ -146,6 +146,37 @@ def _split(parts, sep, maxsplit=-1, from_right=False):
     return [simplify(rope(*pc)) for pc in pieces]
 
 
+def _lstrip_parts(ex, parts, chars):
+    """str.lstrip over a rope: literals are stripped exactly; once a literal is eaten whole the stripping goes on INTO the next part.  An atom has no leading
+    whitespace (grammar assumption), so lstrip() stops there; with an explicit character SET the result may depend on the inside of the atom: the path forks on
+    "the atom starts with a character of the set", and the remainder is a derived atom defined by  atom == eaten ++ rest, eaten in set+, rest not starting in set"""
+    ps = list(parts)
+    while ps:
+        p = ps[0]
+        if isinstance(p, str):
+            q = p.lstrip(chars)
+            if q:
+                ps[0] = q
+                return ps
+            ps.pop(0)
+            continue
+        if chars is None:
+            return ps
+        cls = z3.Union(*[z3.Re(c) for c in chars]) if len(chars) > 1 else z3.Re(chars)
+        anything = z3.Full(z3.ReSort(z3.StringSort()))
+        if not ex.decide(z3.InRe(p.z, z3.Concat(cls, anything))):
+            return ps
+        if ex.decide(z3.InRe(p.z, z3.Plus(cls))):
+            ps.pop(0)               # the whole atom consists of characters of the set
+            continue
+        d = Atom(f'{p.name}.lstrip({chars!r})', 'derived')
+        eaten = z3.String(f'{p.name}.eaten({chars!r})')
+        ex.assume(z3.And(p.z == z3.Concat(eaten, d.z), z3.InRe(eaten, z3.Plus(cls)), z3.Length(d.z) > 0, z3.Not(z3.InRe(d.z, z3.Concat(cls, anything)))))
+        ps[0] = d
+        return ps
+    return ps
+
+
 class RopeModel:
     pytype = 'str'
 
@@ -177,10 +208,18 @@ class RopeModel:
 
     @staticmethod
     def m_lstrip(ex, o, chars=None):
-        ps = list(o.f['parts'])
-        if ps and isinstance(ps[0], str):
-            ps[0] = ps[0].lstrip(chars)
-        return simplify(rope(*ps))
+        return simplify(rope(*_lstrip_parts(ex, o.f['parts'], chars)))
+
+    @staticmethod
+    def m_partition(ex, o, sep):
+        pcs = _split(o.f['parts'], sep, 1)
+        return (o, '', '') if len(pcs) == 1 else (pcs[0], sep, pcs[1])
+
+    @staticmethod
+    def getattr(ex, o, name):
+        if hasattr(str, name):      # a rope stands for a str: a method the model does not compute is a limit of the checker, never an AttributeError of the code
+            raise Unsupported(f'rope.{name} (a str method the rope model does not compute)')
+        return NOTHANDLED
 
     @staticmethod
     def m_startswith(ex, o, prefix):
